@@ -182,8 +182,13 @@ func runScen(c *common.Ctx, sc scen, r *common.Rand, cf *common.CaseFile) error 
 	cfg := hist.Config{PageSize: ps, Regime: 0, AllowWAL: sc.WAL, ForceWAL: sc.WAL}
 	h := hist.NewOn(c, r.Fork(), cfg, p.Store, p.Exits, "db", &lfs.Image{PageSize: ps}, refPos, false)
 	if sc.LateJoin {
-		if _, err := clu.Start("r3", false); err != nil {
+		r3, err := clu.Start("r3", false)
+		if err != nil {
 			return err
+		}
+		// a replica that joins while the database is dropped learns the drop (a snapshot of nothing)
+		if dp := dbPos(p.Store); !cluster.WaitPos(r3, "db", dp.TXID, dp.Chk, 5*time.Second) {
+			c.Violate("C15:drop:late-joiner", fmt.Sprintf("a replica that joined while the database was dropped did not reach the drop position (%d,%016x); at %v exits=%v", dp.TXID, dp.Chk, dbPos(r3.Store), r3.Exits()), rep("late-joiner"))
 		}
 	}
 	if n := clu.Node("r1"); n != nil { // restart r1 after the drop: the drop must survive restarts
